@@ -191,14 +191,16 @@ def computeLoop : Content → List Table → List Pars → Except Err (List Tabl
   | _, [], _ :: _ => .error (.valueError "zip() argument 2 is longer than argument 1")
   | _, _ :: _, [] => .error (.valueError "zip() argument 2 is shorter than argument 1")
 
-/-- `_compute_args` (after `fix: keep raw_args empty when computing them fails`: the
-    memo cell is assigned only when every segment succeeded) -/
+/-- `_compute_args`.  After `fix: keep raw_args empty when computing them fails` the memo
+    cell is assigned only when every segment succeeded; after `fix: restore the model's
+    parameters …` the loop runs inside `_keep_model_parameters()`, so the shared model is
+    handed back exactly as it was found (also when the loop raises) -/
 def computeArgs (res : Res) (st : St) : Except Err (List Table × St) :=
   if !st.memo.isEmpty then .ok (st.memo, st)
   else
     match computeLoop st.model res.rawVars res.rawPars with
     | .error e => .error e
-    | .ok (tabs, c) => .ok (tabs, { model := c, memo := tabs })
+    | .ok (tabs, _) => .ok (tabs, { model := st.model, memo := tabs })
 
 /-- `_select_data`: names come from the *current* model; the cache is only needed for
     the derived-parameter / derived-variable split -/
@@ -355,17 +357,18 @@ def rhsLoop : Content → List Table → List Pars → Except Err (List Table ×
         | .ok (rest, c2) => .ok (d :: rest, c2)
   | _, _, _ => .error (.valueError "zip")
 
-/-- `get_right_hand_side(normalise, concatenated)` -/
+/-- `get_right_hand_side(normalise, concatenated)`; the per-segment loop runs inside
+    `_keep_model_parameters()` -/
 def getRhsV (res : Res) (n : Norm) (concat : Bool) (st : St) : Except Err (View × St) :=
   match computeArgs res st with
   | .error e => .error e
   | .ok (tabs, st1) =>
     match rhsLoop st1.model tabs res.rawPars with
     | .error e => .error e
-    | .ok (ds, c) =>
+    | .ok (ds, _) =>
       match adjust ds n concat with
       | .error e => .error e
-      | .ok v => .ok (v, { st1 with model := c })
+      | .ok v => .ok (v, st1)
 
 /-- `for rxn, derived in dyn.items(): stoich[rxn] = derived.fn(*args)` -/
 def overlayVar (dep : Env) : List (Name × Fn) → List (Name × Rat) → Except Err (List (Name × Rat))
@@ -428,7 +431,8 @@ def scaleLoop (v : Name) (names : List Name) (sgn : Rat) :
 def pickNames (prod : Bool) (st : List (Name × Rat)) : List Name :=
   (st.filter fun kv => if prod then kv.2 > 0 else kv.2 < 0).map (·.1)
 
-/-- `get_producers` / `get_consumers` -/
+/-- `get_producers` / `get_consumers`; everything that touches the model runs inside
+    `_keep_model_parameters()`, so the state handed back holds the model as it was found -/
 def getProdConsV (res : Res) (prod : Bool) (v : Name) (scaled : Bool) (n : Norm)
     (concat : Bool) (st : St) : Except Err (View × St) :=
   match res.rawPars with
@@ -450,14 +454,11 @@ def getProdConsV (res : Res) (prod : Bool) (v : Name) (scaled : Bool) (n : Norm)
             match (if scaled then scaleLoop v names (if prod then 1 else -1) st1.model sel res.rawPars
                    else .ok (sel, st1.model)) with
             | .error e => .error e
-            | .ok (out, c) =>
-              match withPars c (res.rawPars.getLast?.getD []) with
-              | .error e => .error e
-              | .ok cl =>
-                if concat then
-                  if out.isEmpty then .error (.valueError "No objects to concatenate")
-                  else .ok (.frame out.flatten, { st1 with model := cl })
-                else .ok (.frames out, { st1 with model := cl })
+            | .ok (out, _) =>
+              if concat then
+                if out.isEmpty then .error (.valueError "No objects to concatenate")
+                else .ok (.frame out.flatten, { st1 with model := st.model })
+              else .ok (.frames out, { st1 with model := st.model })
         | .ok _ => .error (.other "unreachable")
 
 /-- `get_new_y0` = `dict(get_variables(False, False, False).iloc[-1])` -/
@@ -500,11 +501,12 @@ def read (res : Res) : Query → St → Except Err (View × St)
 inductive Event where
   | read (q : Query)
   | setPars (p : Pars)
+  | modelPars   -- the owner of the model looks at it: `model.get_parameter_values()`
 deriving Inhabited
 
-/-- runs a history; a failing event leaves the state as it was before it (Python may
-    leave a prefix of a parameter snapshot applied to the model, which no later read
-    can observe — see `C10_model_pars_irrelevant`) and the history goes on -/
+/-- runs a history; a failing event leaves the state as it was before it (the memo cell is
+    only assigned on success, and `_keep_model_parameters()` restores the model in its
+    `finally`) and the history goes on -/
 def runHistory (res : Res) : List Event → St → List (Except Err View)
   | [], _ => []
   | .read q :: rest, st =>
@@ -515,5 +517,9 @@ def runHistory (res : Res) : List Event → St → List (Except Err View)
     match withPars st.model p with
     | .error e => .error e :: runHistory res rest st
     | .ok c => .ok (.dict []) :: runHistory res rest { st with model := c }
+  | .modelPars :: rest, st =>
+    (match getParameterValues st.model with
+     | .error e => .error e
+     | .ok ps => .ok (.dict ps)) :: runHistory res rest st
 
 end Mxl.C10
